@@ -21,6 +21,8 @@ def run(run):
         for k, c in enumerate(cs):
             with guard(run, 'concept[%d].attributes() / minimal()' % k, [pc.line]):
                 e, i = pc.omask(c.extent), pc.pmask(c.intent)
+                if k % 2:
+                    next(c.attributes(), None)      # a partly consumed, abandoned iterator must not matter
                 attrs = list(c.attributes())
                 got = [pc.pmask(a) for a in attrs]
                 mini = pc.pmask(c.minimal())
